@@ -19,3 +19,15 @@ chk("C08", "model_checking",
     "Every member position of the document model x an 18-value type-confusion domain (single deviations; thorough adds pairs), every byte string up to length 3/4 over 29 structural bytes, and a set of stress documents are pushed through every reading entry point, the schema validators and - when they load - injection into six OCI spec shapes; the same documents are also loaded by the background refresh goroutine of an auto-refresh cache in worker subprocesses whose death is attributed to the document in flight. Complete enumeration of the stated finite space; oracle = no panic / process alive / error entry for files that do not load.",
     "Trusted: panic detection by recover() in-process and by process exit for the watcher goroutine; hang detection is a 90 s watchdog that aborts with exit 2 (infrastructure), not an oracle. Inputs outside the confusion domain / byte alphabet / length bound are not covered.",
     "deviation-bounded exhaustive enumeration of malformed inputs; crash oracle incl. subprocess isolation for the watcher goroutine", "DESIGN.md §3 C08")
+chk("C02", "model_checking",
+    "Eight (thorough: sixteen) cache populations with shadowing across two directories and spec-level edits present/absent per file x every ordered selection of distinct resolvable devices up to length 4 (5) x initial OCI specs; each edit list carries provenance-unique and mutually colliding entries so order and multiplicity are observable. The injected result is compared with one application of an independently composed edit list; complete enumeration of that space.",
+    "Trusted: the composition rule transcribed from the statement; the real ContainerEdits.Apply is used once for the expected value, as the statement is worded (Apply is C03's subject). More files/devices than enumerated are not covered.",
+    "bounded-exhaustive enumeration of request sequences vs composition model", "DESIGN.md §3 C02")
+chk("C03", "model_checking",
+    "Ten dimensions (4 of the initial OCI spec, 6 of the edit list, incl. repeated names/paths/destinations and real b/c/p host nodes made with mknod) are combined - quick: all pairs of dimensions against two defaults plus the process x linux x device-node triples; thorough: the full product (~29 M points) - through ContainerEdits.Apply, Device.ApplyEdits and Spec.ApplyEdits, and compared with a straight-line reference transformer that does not use the OCI generator.",
+    "Trusted: the reference transformer (refmodel.ApplyEdits) and the normalisation (nil = empty; env by name, devices by path, GIDs as set). Initial specs with duplicate keys, type 'u', and failed applications' partial results are outside the oracle.",
+    "bounded-exhaustive enumeration of (OCI spec, edit list) pairs vs reference transformer", "DESIGN.md §3 C03")
+chk("C04", "model_checking",
+    "One cache with resolvable, conflict-removed and conflict-over-shadowed devices x every request list up to length 3 (4) with repetitions over 10 request kinds x initial OCI specs incl. nil; oracle = error, exact unresolved list in order, OCI spec deep- and JSON-identical to its copy. Complete enumeration of that space.",
+    "Trusted: which names resolve in the fixed population (cross-checked against the cache at start, exit 2 on disagreement).",
+    "bounded-exhaustive enumeration of request lists; before/after comparison", "DESIGN.md §3 C04")
